@@ -36,6 +36,8 @@ type RouteItem struct {
 	// exchanged, both ends closed), and the judged pair's first call is issued this long after that earlier
 	// pair's dial
 	ReuseAfterMs int `json:"reuseAfterMs,omitempty"`
+	// DialHoldMs (mux): the dialler waits this long between Dial returning and writing its (large) frame
+	DialHoldMs int `json:"dialHoldMs,omitempty"`
 	// LateReadMs (mux): a one-way transfer: the dialler writes its frame and closes its end at once; the
 	// acceptor starts reading this long after it accepted and must still get the whole frame, then EOF
 	LateReadMs int `json:"lateReadMs,omitempty"`
